@@ -60,7 +60,9 @@ fn run(ctx: &RunCtx) -> Report {
     let rawnet = RawNet::new();
     let n = rng.usize(3, 8);
     // storer families
-    let family = rng.below(5);
+    let family = rng.below(7);
+    // families 5/6: the smallest 3xx majority (resp. exactly half) answers at once, the rest acknowledge late
+    let code56: i64 = if rng.chance(1, 2) { 301 } else { 302 };
     let mut addrs = vec![];
     for i in 0..n {
         let addr = SocketAddrV4::new(priv_ip(60 + i), 6881);
@@ -72,6 +74,16 @@ fn run(ctx: &RunCtx) -> Report {
             1 => PutReply::Error(301),
             2 => PutReply::Error(302),
             3 => PutReply::Silent,
+            5 | 6 => {
+                let rejecting = if family == 5 { n / 2 + 1 } else { n / 2 };
+                if i < rejecting {
+                    p.delay = rng.range(0, 40) * MS;
+                    PutReply::Error(code56)
+                } else {
+                    p.delay = rng.range(250, 380) * MS;
+                    PutReply::Ack
+                }
+            }
             _ => {
                 if i == 0 {
                     PutReply::Error(if rng.chance(1, 2) { 301 } else { 302 })
@@ -87,7 +99,14 @@ fn run(ctx: &RunCtx) -> Report {
         rawnet.with_peer(i, |p| p.knows = (0..n).collect());
     }
     let storers_result = match family {
-        0 | 4 => Res::Ok,
+        5 => {
+            if code56 == 301 {
+                Res::Cas
+            } else {
+                Res::NotMostRecent
+            }
+        }
+        0 | 4 | 6 => Res::Ok,
         1 => Res::Cas,
         2 => Res::NotMostRecent,
         _ => Res::Query,
